@@ -7,6 +7,7 @@ ENGINES = [
     {"name": "bppx", "path": "tool/bppx.cc", "serves_properties": [], "kind_free_text": "libTooling extractor: typed AST + clang CFG of every function under /repo/src as JSON facts"},
     {"name": "E1", "path": "bppverif/e1.py", "serves_properties": [], "kind_free_text": "CFG queries: guard facts on branch edges, dominance by guards, must-pass-through, who-writes"},
     {"name": "E3", "path": "bppverif/orderai.py", "serves_properties": [], "kind_free_text": "abstract interpretation of comparison-only functions over all order types (exact for its clause)"},
+    {"name": "E5", "path": "bppverif/c02.py", "serves_properties": ["C02"], "kind_free_text": "sibling / table agreement: validation loop vs apply loop, copy vs share functions"},
 ]
 
 NOTES = ("Static analysis only: every check re-extracts facts from /repo's working tree (clang AST+CFG) and evaluates repository-specific rules. "
@@ -22,6 +23,22 @@ CLAIMED = {
                "bracket tables of the description syntax agree. This covers all inputs and histories for those clauses, which a sampled test cannot."),
         note=TB + "Not decided: floating-point spacing of limit+-1e-12, numeric parsing inside readDescription, constraints mutated after installation through a shared pointer."),
 }
+
+CLAIMED["C02"] = dict(
+    engine="E1+E5",
+    technique="static analysis: loop-pair (validate/apply) agreement over resolved expressions, CFG guard dominance on every insertion into ParameterList::parameters_, clone-vs-share classification, per-iteration counter lock-step",
+    level=("Static rules decide, for all lists and values: each bulk setter validates the TARGET's constraint on the very value it later stores, over the same range and filter, in a loop that dominates the "
+           "apply loop; flag/store/position are recorded together and the position counter advances exactly once per iteration; every insertion into a list (whole program) keeps names unique; copy "
+           "functions store clones and share functions the source's pointer; index-set deletion sorts a copy, walks it descending and range-checks; owners notify only after the list operation returned."),
+    note=TB + "Not decided: 'exactly the named entries' as a value statement, precision>0 corner cases, atomicity when a listener throws during the apply pass, setParameter(index,param).")
+
+CLAIMED["C20"] = dict(
+    engine="E3+E1",
+    technique="static analysis: abstract interpretation of Range primitives over all order types of the end points; must-pass-through (clean_ after mutation), clone/ownership pairing and erase-advance rules on the CFG",
+    level=("For Range/RangeSet/MultiRange<int|unsigned long|double>: overlap/contains/isContiguous/isEmpty/expandWith/sliceWith/==/!=/constructor equal half-open interval arithmetic on every order type "
+           "(exhaustive truth table from the syntax tree); shifts treat both ends alike; copies store clones and assignment clears first; every MultiRange mutator re-establishes the canonical form via clean_ "
+           "(std::sort with rangeComp_ + removal of empties); erase loops do not skip the element that slides into an erased slot; delete/erase/clear pairing of owned pointers."),
+    note=TB + "Not decided: union/total length over operation histories, correctness of addRange's merge order, rangeComp_ as a strict weak order (relies on disjointness).")
 
 NOT_APPLICABLE = {
     "C06": ("every clause is a floating-point identity of the JAMA QL/QR iterations (A.V = V.D within k.eps, ordering, trace/determinant); correctness lies in rotation coefficients and "
